@@ -80,12 +80,15 @@ func typesOf(proto string) []string {
 
 // prefixReader returns fixed bytes first and a deterministic stream afterwards.
 type prefixReader struct {
+	mu     sync.Mutex // rounds read their Rand() from several goroutines
 	prefix []byte
 	rest   io.Reader
 	Read_  int
 }
 
 func (p *prefixReader) Read(b []byte) (int, error) {
+	p.mu.Lock()
+	defer p.mu.Unlock()
 	n := 0
 	for n < len(b) && len(p.prefix) > 0 {
 		b[n] = p.prefix[0]
@@ -248,6 +251,7 @@ type signOpts struct {
 	first    [][]*big.Int   // per signer: values for the first draws of Rand() (k_i, gamma_i / r_i), 32 bytes each
 	seed     string
 	kdd      *big.Int       // key derivation delta (ECDSA)
+	realRand bool           // leave the library's default entropy source (crypto/rand) in place
 }
 
 func sigDrain(end chan *common.SignatureData) func() []interface{} {
@@ -279,7 +283,9 @@ func buildECDSASign(keys []ecdsakeygen.LocalPartySaveData, pids tss.SortedPartyI
 				pr = append(pr, beN(c, 32)...)
 			}
 		}
-		params.SetRand(&prefixReader{prefix: pr, rest: newDetRand(fmt.Sprintf("%s-r-%d", o.seed, i))})
+		if !o.realRand {
+			params.SetRand(&prefixReader{prefix: pr, rest: newDetRand(fmt.Sprintf("%s-r-%d", o.seed, i))})
+		}
 		if o.fullLen > 0 {
 			node.Party = ecdsasign.NewLocalPartyWithKDD(o.msg, params, keys[i], o.kdd, out, end, o.fullLen)
 		} else {
@@ -306,7 +312,9 @@ func buildEdDSASign(keys []eddsakeygen.LocalPartySaveData, pids tss.SortedPartyI
 				pr = append(pr, beN(c, 32)...)
 			}
 		}
-		params.SetRand(&prefixReader{prefix: pr, rest: newDetRand(fmt.Sprintf("%s-r-%d", o.seed, i))})
+		if !o.realRand {
+			params.SetRand(&prefixReader{prefix: pr, rest: newDetRand(fmt.Sprintf("%s-r-%d", o.seed, i))})
+		}
 		if o.fullLen > 0 {
 			node.Party = eddsasign.NewLocalParty(o.msg, params, keys[i], out, end, o.fullLen)
 		} else {
@@ -329,6 +337,10 @@ type reshareOpts struct {
 }
 
 func buildEdDSAReshare(oldKeys []eddsakeygen.LocalPartySaveData, oldPIDs tss.SortedPartyIDs, keyN, oldT int, o reshareOpts) *runCtx {
+	return buildEdDSAReshareOpt(oldKeys, oldPIDs, keyN, oldT, o, true)
+}
+
+func buildEdDSAReshareOpt(oldKeys []eddsakeygen.LocalPartySaveData, oldPIDs tss.SortedPartyIDs, keyN, oldT int, o reshareOpts, cloneXi bool) *runCtx {
 	newPIDs := mkPIDs(o.newKeys)
 	oldCtx, newCtx := tss.NewPeerContext(oldPIDs), tss.NewPeerContext(newPIDs)
 	rc := &runCtx{results: map[string][]interface{}{}}
@@ -358,7 +370,9 @@ func buildEdDSAReshare(oldKeys []eddsakeygen.LocalPartySaveData, oldPIDs tss.Sor
 		}
 		params.SetRand(&prefixReader{prefix: pr, rest: newDetRand(fmt.Sprintf("%s-o-%d", o.seed, i))})
 		ok := oldKeys[i]
-		ok.Xi = new(big.Int).Set(ok.Xi) // resharing erases the old share through this pointer
+		if cloneXi {
+			ok.Xi = new(big.Int).Set(ok.Xi) // resharing erases the old share through this pointer
+		}
 		node.Party = eddsareshare.NewLocalParty(params, ok, out, end)
 		node.Results = rc.resultsFn(node.Name, drain(end))
 		net.Old = append(net.Old, node)
@@ -378,6 +392,10 @@ func buildEdDSAReshare(oldKeys []eddsakeygen.LocalPartySaveData, oldPIDs tss.Sor
 }
 
 func buildECDSAReshare(oldKeys []ecdsakeygen.LocalPartySaveData, oldPIDs tss.SortedPartyIDs, keyN, oldT int, o reshareOpts) *runCtx {
+	return buildECDSAReshareOpt(oldKeys, oldPIDs, keyN, oldT, o, true)
+}
+
+func buildECDSAReshareOpt(oldKeys []ecdsakeygen.LocalPartySaveData, oldPIDs tss.SortedPartyIDs, keyN, oldT int, o reshareOpts, cloneXi bool) *runCtx {
 	fx, _ := fixtures()
 	newPIDs := mkPIDs(o.newKeys)
 	oldCtx, newCtx := tss.NewPeerContext(oldPIDs), tss.NewPeerContext(newPIDs)
@@ -412,7 +430,9 @@ func buildECDSAReshare(oldKeys []ecdsakeygen.LocalPartySaveData, oldPIDs tss.Sor
 		}
 		params.SetRand(&prefixReader{prefix: pr, rest: newDetRand(fmt.Sprintf("%s-o-%d", o.seed, i))})
 		ok := oldKeys[i]
-		ok.Xi = new(big.Int).Set(ok.Xi) // resharing erases the old share through this pointer
+		if cloneXi {
+			ok.Xi = new(big.Int).Set(ok.Xi) // resharing erases the old share through this pointer
+		}
 		node.Party = ecdsareshare.NewLocalParty(params, ok, out, end)
 		node.Results = rc.resultsFn(node.Name, drain(end))
 		net.Old = append(net.Old, node)
